@@ -302,6 +302,26 @@ def p_flatten(stmts: list) -> list:
     return out
 
 
+def _in_reraising_try(block: list):
+    """the single statement of `block`, looked for through `try: <one statement> except ...: <ends in raise>` wrappers"""
+    if len(block) != 1:
+        return None
+    st = block[0]
+    while _reraising_try(st):
+        if len(st.body) != 1:
+            return None
+        st = st.body[0]
+    return st
+
+
+def _handlers_of(block: list):
+    out, st = [], block[0] if len(block) == 1 else None
+    while st is not None and _reraising_try(st):
+        out.extend(h for h in st.handlers)
+        st = st.body[0] if len(st.body) == 1 else None
+    return out
+
+
 def p_default(stmts: list) -> list:
     out, i = [], 0
     while i < len(stmts):
@@ -310,14 +330,15 @@ def p_default(stmts: list) -> list:
         if isinstance(st, ast.Assign) and len(st.targets) == 1 and isinstance(st.targets[0], ast.Name) \
                 and isinstance(st.value, (ast.Name, ast.Constant)) and isinstance(nxt, ast.If) and not nxt.orelse:
             x = st.targets[0].id
-            n1, _ = _single_assign(nxt.body)
-            if n1 == x:
+            inner = _in_reraising_try(nxt.body)           # the assignment itself, possibly inside `try: ... except: raise`
+            n1, _ = _single_assign([inner]) if inner is not None else (None, None)
+            if n1 == x and not any(_loads(h, x) for h in _handlers_of(nxt.body)):
                 test = nxt.test
                 if _loads(test, x):
                     test = _Subst({x: st.value}).visit(copy.deepcopy(test))
-                if not _loads(nxt.body[0].value, x) or _simple(st.value):
-                    if _loads(nxt.body[0].value, x):
-                        nxt.body[0].value = _Subst({x: st.value}).visit(nxt.body[0].value)
+                if not _loads(inner.value, x) or _simple(st.value):
+                    if _loads(inner.value, x):
+                        inner.value = _Subst({x: st.value}).visit(inner.value)
                     nxt.test = test
                     nxt.orelse = [st]
                     ast.fix_missing_locations(nxt)
@@ -338,7 +359,53 @@ def _pure_expr(node: ast.AST) -> bool:
     return not _has_impure_call(node)
 
 
-def p_temp(stmts: list, fn_body_ref: list) -> list:
+def _eval_children(node: ast.AST):
+    """sub-expressions in evaluation order, only those that are evaluated unconditionally; None = order not known"""
+    if isinstance(node, ast.Call):
+        if any(isinstance(a, ast.Starred) for a in node.args) or any(k.arg is None for k in node.keywords):
+            return None
+        return [node.func] + list(node.args) + [k.value for k in node.keywords]
+    if isinstance(node, ast.Attribute) and isinstance(node.ctx, ast.Load):
+        return [node.value]
+    if isinstance(node, ast.BinOp):
+        return [node.left, node.right]
+    if isinstance(node, ast.UnaryOp):
+        return [node.operand]
+    if isinstance(node, ast.Compare):
+        return [node.left, node.comparators[0]] if len(node.ops) == 1 else None
+    if isinstance(node, ast.Subscript) and isinstance(node.ctx, ast.Load):
+        return [node.value, node.slice]
+    if isinstance(node, (ast.List, ast.Tuple)) and isinstance(node.ctx, ast.Load):
+        return None if any(isinstance(e, ast.Starred) for e in node.elts) else list(node.elts)
+    if isinstance(node, (ast.Return, ast.Expr)):
+        return [node.value] if node.value is not None else []
+    if isinstance(node, ast.Assign):
+        return [node.value]                 # the targets are evaluated after the value
+    return None
+
+
+def _first_evaluated(node: ast.AST, x: str, local_names: set) -> bool:
+    """the single load of `x` in `node` is evaluated unconditionally, and everything evaluated before it is a constant or
+    the lookup of a name / attribute chain that is not rooted at a local of the function (a module, a module-level
+    function): then `x = E` directly before `node` may be folded into it whatever E does"""
+    if isinstance(node, ast.Name):
+        return node.id == x
+    kids = _eval_children(node)
+    if kids is None:
+        return False
+    for c in kids:
+        if _loads(c, x):
+            return _first_evaluated(c, x, local_names)
+        if isinstance(c, ast.Constant):
+            continue
+        if _chain(c) and _root(c) not in local_names and all(isinstance(n.ctx, ast.Load) for n in ast.walk(c)
+                                                               if isinstance(n, (ast.Name, ast.Attribute))):
+            continue
+        return False
+    return False
+
+
+def p_temp(stmts: list, fn_body_ref: list, local_names: set = frozenset()) -> list:
     """`x = E; return x` -> `return E`;  `x = E; t = x` -> `t = E` when x is not loaded anywhere else"""
     out, i = [], 0
     while i < len(stmts):
@@ -363,6 +430,15 @@ def p_temp(stmts: list, fn_body_ref: list) -> list:
                 if not any(True for _ in _blocks(nxt)) and _loads(nxt, x) == 1 and _pure_expr(st.value) \
                         and isinstance(nxt, (ast.Assign, ast.AugAssign, ast.Return, ast.Expr)) \
                         and not _has_impure_call(nxt):
+                    out.append(_Subst({x: st.value}).visit(nxt))
+                    i += 2
+                    continue
+                # any intermediate result used once, as the first thing the directly following statement evaluates
+                if isinstance(nxt, (ast.Assign, ast.Return, ast.Expr)) and _loads(nxt, x) == 1 \
+                        and not any(isinstance(n, (ast.NamedExpr, ast.Lambda, ast.ListComp, ast.SetComp, ast.DictComp,
+                                                   ast.GeneratorExp, ast.Await, ast.Yield, ast.YieldFrom))
+                                    for n in list(ast.walk(nxt)) + list(ast.walk(st.value))) \
+                        and _first_evaluated(nxt, x, local_names):
                     out.append(_Subst({x: st.value}).visit(nxt))
                     i += 2
                     continue
@@ -712,6 +788,14 @@ def _arith(node: ast.AST) -> bool:
     return not isinstance(node, (ast.Name, ast.Constant))
 
 
+def _literal_seq(node: ast.AST) -> bool:
+    """list / tuple display (possibly nested) of names, constants and arithmetic over them: a value that is rebuilt
+    equal at every use - interchangeable with the one object as long as it is never mutated, compared by identity or
+    handed to unknown code (`_only_read_as_value`)"""
+    return isinstance(node, (ast.List, ast.Tuple)) and isinstance(node.ctx, ast.Load) and bool(node.elts) and all(
+        isinstance(e, (ast.Name, ast.Constant)) or _arith(e) or _literal_seq(e) for e in node.elts)
+
+
 def _only_read_as_value(body: list, x: str) -> bool:
     """x is never the root of a store / augmented target and never handed to code that could mutate it"""
     for st in body:
@@ -723,6 +807,8 @@ def _only_read_as_value(body: list, x: str) -> bool:
             if isinstance(n, ast.Call) and not _pure_call(n):
                 if any(_loads(a, x) for a in list(n.args) + [k.value for k in n.keywords]) or _root(n.func) == x:
                     return False
+            if isinstance(n, ast.Compare) and any(isinstance(o, (ast.Is, ast.IsNot)) for o in n.ops) and _loads(n, x):
+                return False
     return True
 
 
@@ -770,7 +856,8 @@ def p_alias(fn: ast.FunctionDef):
             active.pop(x, None)
         # 3. does it define a new alias?
         if isinstance(st, ast.Assign) and len(st.targets) == 1 and isinstance(st.targets[0], ast.Name) \
-                and (_simple(st.value) or (_arith(st.value) and _only_read_as_value(body, st.targets[0].id))):
+                and (_simple(st.value) or ((_arith(st.value) or _literal_seq(st.value))
+                                           and _only_read_as_value(body, st.targets[0].id))):
             x = st.targets[0].id
             if store_count.get(x) == 1 and x not in params and not _loads(st.value, x):
                 active[x] = st.value
@@ -814,7 +901,8 @@ def normalise_function(fn: ast.FunctionDef, module_funcs: dict, helpers: dict, c
         fn.body = _map_blocks(fn.body, p_default)
         fn.body = _map_blocks(fn.body, p_sink)
         fn.body = _map_blocks(fn.body, p_flatten)
-        fn.body = _map_blocks(fn.body, lambda b: p_temp(b, fn.body))
+        local_names = _stored_names(fn) | {a.arg for a in ast.walk(fn.args) if isinstance(a, ast.arg)}
+        fn.body = _map_blocks(fn.body, lambda b: p_temp(b, fn.body, local_names))
         p_alias(fn)
         if ast.dump(fn) == before:
             break
